@@ -197,7 +197,8 @@ fn cmd_explore(args: &[String]) {
         sigs.push(serde_json::json!({"name": s.name, "tree": format!("{:016x}", r.tree_sig), "set": format!("{:016x}", r.set_sig), "n": r.trace_hashes.len(), "exhaustive": r.exhaustive}));
         if let Some(f) = r.found {
             found.push(f);
-            if found.len() >= max_found {
+            // (only violations that a fresh process confirms count towards the limit)
+            if found.iter().filter(|f| f.reproduced).count() >= max_found || found.len() >= max_found + 3 {
                 break;
             }
         }
